@@ -38,6 +38,16 @@ P5_STRIP = {"polyseed": ["__CPROVER_file_local_polyseed_c_str_split",
 for n in ("p5_decode", "p5_decode_explicit"):
     H(n, src="p_decode.c", tus=API_TUS, strip=P5_STRIP, flags=CAD + ["--unwind", "65"], cap=240, rss=2.0)
 
+# T1 / T3-lemma: unwind = longest string + a few (skip loops are bounded by it)
+for n in ("t1_accept", "t1_safety", "t1_comparer", "t3_lemma"):
+    H(n, src="t_cmp.c", tus=["lang"], flags=CAD, cap=300, rss=2.0)
+
+H("t2_search", src="t_search.c", tus=["lang"], extra=["stubs/bsearch.c"], flags=CAD, cap=300, rss=2.0)
+
+P6_STRIP = {"lang": ["__CPROVER_file_local_lang_c_lang_search"]}
+for n in ("p6_auto", "p6_wipe"):
+    H(n, src="p_lang.c", tus=["lang", "dependency"], strip=P6_STRIP, flags=CAD + ["--unwind", "17"], cap=300, rss=3.0)
+
 PROPS = {}
 
 
